@@ -4,13 +4,14 @@ Definition part: every curve x EVERY breakpoint set x 5 metrics against the refe
 (mc/ref/evaluation_spec.py); the function is called both without a cache argument and with a fresh one
 (so hidden state shared between calls shows up as a history-dependent violation); global RMSE vs RMSE
 against linear interpolation; MIP / MAD.
-History part: explicit-state BFS over cache histories.  State = the cache's key set (values are functions
+History part: explicit-state BFS over cache histories.  State = the cache's whole content, frozen recursively (for the present layout: the key set, values being functions
 of the key - asserted in every state), events = query(S) for every breakpoint set; the search starts from
 the empty cache AND from the caches left behind by grdp runs (captured through the callable seam
 evaluation.compute_global_cost, no source hook) and runs to closure.  Invariant on every transition: the
-value is bit-identical to a fresh-cache evaluation and the cache only grows by keys of S.
+value is bit-identical to a fresh-cache evaluation.  Nothing is assumed about what the cache stores or under which keys.
 """
 import math
+import copy
 import numpy as np
 
 from mc import core, lib, curves, statespace
@@ -22,7 +23,7 @@ import kneeliverse.rdp as rdp
 
 ID = 'C15'
 TITLE = 'Global reconstruction cost matches its definition and is cache-transparent'
-RULE = ('definition part: cases = (curve, breakpoint set, metric), full product; history part: states = cache key sets reached by BFS to closure, transitions = queries; '
+RULE = ('definition part: cases = (curve, breakpoint set, metric), full product; history part: states = cache contents reached by BFS to closure, transitions = queries; '
         'non-trivial = a query that hits a non-empty cache (history) / a breakpoint set with at least one segment of >= 3 points (definition)')
 ASSUMPTIONS = ['ratio metrics (smape, rpd, rmspe) are compared definitionally on curves with y >= 1 only (1-ulp noise of m*x+b is amplified to O(1) at y = 0)',
                'relative tolerance 1e-9 (+1e-12 absolute) against the math.fsum reference; cache transparency is bit-exact',
@@ -168,7 +169,7 @@ def grdp_caches(pts, metric):
                 except Exception:  # noqa: BLE001
                     continue
                 for c in captured:
-                    out.append(('grdp(t=%r,order=%s)' % (t, order), dict(c)))
+                    out.append(('grdp(t=%r,order=%s)' % (t, order), copy.deepcopy(c)))
     finally:
         evaluation.compute_global_cost = orig
     return out
@@ -180,40 +181,46 @@ def run_bfs(xs, ys, metric, res, label):
     M = lib.METRIC[metric]
     events = [tuple(S) for S in curves.subsets_with_ends(n)]
     fresh = {}
-    entry = {}
     for S in events:
-        c = {}
-        fresh[S] = evaluation.compute_global_cost(pts, np.array(S), M, c)
-        for k, v in c.items():
-            entry.setdefault(k, v)
-    allowed = {S: set(zip(S, S[1:])) | ({'tss'} if metric == 'r2' else set()) for S in events}
-
+        fresh[S] = evaluation.compute_global_cost(pts, np.array(S), M, {})
     def step(cache, S):
-        c = dict(cache)
+        c = copy.deepcopy(cache)             # the layout of the cache is the implementation's business: nested containers are copied too
         try:
             v = evaluation.compute_global_cost(pts, np.array(S), M, c)
         except Exception as e:  # noqa: BLE001
             v = e
         return c, v
 
+    def freeze(o):
+        if isinstance(o, dict):
+            return frozenset((freeze(k), freeze(v)) for k, v in o.items())
+        if isinstance(o, (list, tuple)):
+            return tuple(freeze(v) for v in o)
+        if isinstance(o, (set, frozenset)):
+            return frozenset(freeze(v) for v in o)
+        if isinstance(o, np.ndarray):
+            return (o.shape, o.tobytes())
+        if isinstance(o, (float, np.floating)):
+            return repr(float(o))
+        try:
+            hash(o)
+            return o
+        except TypeError:
+            return repr(o)
+
     def canon(cache):
-        return frozenset(cache.keys())
+        # whole content (keys and values, recursively): two states are merged only if the dictionaries are equal,
+        # whatever layout the implementation uses
+        return freeze(cache)
 
     def invariant(cache, S, nxt, v):
+        # the property: the value under a shared cache is bit-identical to the value under a fresh one.  (What
+        # the implementation stores, and under which keys, is not constrained.)
         if isinstance(v, Exception):
             return 'raises %r' % v
         f = fresh[S]
         if not (v == f or (v != v and f != f)):
             return 'shared cache gives %r, fresh cache gives %r' % (v, f)
-        new = set(nxt) - set(cache)
-        if not new <= allowed[S]:
-            return 'cache grew by keys %s that are not segments of the query' % sorted(map(str, new - allowed[S]))
-        if not set(cache) <= set(nxt):
-            return 'cache lost keys'
-        for k in new:
-            e = entry.get(k)
-            if e is None or not (nxt[k] == e or (nxt[k] != nxt[k] and e != e)):
-                return 'cache entry %s=%r differs from the fresh recomputation %r' % (k, nxt[k], e)
         return None
 
     initial = [('empty', {})] + grdp_caches(pts, metric)
